@@ -33,7 +33,7 @@ HOST_BLOCK = (0x8000, bytes([0x10, 0x11, 0x34, 0x12, 0x02, 0x80, 0x01, 0x01]))
 
 
 def bound(tier):
-    return ("record sequences of length 1..%d over 11 kinds" % (4 if tier == "thorough" else 3) + " (11+121+1331%s)" % ("+14641" if tier == "thorough" else "") + " x 7 deltas x 6 placements (+ repeat); every byte-prefix of 3 well-formed "
+    return ("record sequences of length 1..%d over 11 kinds (15 for lengths 1-2)" % (4 if tier == "thorough" else 3) + " (15+225+1331%s)" % ("+14641" if tier == "thorough" else "") + " x 7 deltas x 6 placements (+ repeat); every byte-prefix of 3 well-formed "
             "files + 6 header/EOF variants; one plain record of every length 1..%d alone and after 4 kinds of leading records" % (17000 if tier == "thorough" else 8400))
 
 
